@@ -8,7 +8,8 @@ From V Require Import JpegLS.JlsProofsParams JpegLS.JlsProofsGolomb JpegLS.JlsPr
    |recon_i - source_i| <= NEAR and 0 <= recon_i <= 2^P - 1, reports the NEAR requested and the
    original width, height, component count and precision. *)
 Theorem C07_bound : forall w h comps P near pixelData stream lim,
-  w <= 65535 -> h <= 65535 -> w * h * comps <= lim -> near <= near_max P ->
+  w * h * comps <= lim -> near <= near_max P ->
+  zlen (pixelsToIntegers P pixelData) = w * h * comps ->
   Forall (in_range P) (pixelsToIntegers P pixelData) ->
   jlsn_encode w h comps P near pixelData = Ok stream ->
   exists recon,
@@ -19,7 +20,8 @@ Print Assumptions C07_bound.
 
 (* NEAR = 0 is exact *)
 Theorem C07_near0_exact : forall w h comps P pixelData stream lim,
-  w <= 65535 -> h <= 65535 -> w * h * comps <= lim ->
+  w * h * comps <= lim ->
+  zlen (pixelsToIntegers P pixelData) = w * h * comps ->
   Forall (in_range P) (pixelsToIntegers P pixelData) ->
   jlsn_encode w h comps P 0 pixelData = Ok stream ->
   jlsn_decode lim stream =
@@ -29,8 +31,8 @@ Print Assumptions C07_near0_exact.
 
 (* the encoder does not fail on any well-formed call *)
 Theorem C07_encode_total : forall w h comps P near pixelData,
-  1 <= w -> 1 <= h -> comps = 1 \/ comps = 3 -> 2 <= P <= 16 -> 0 <= near <= 255 ->
-  zlen (pixelsToIntegers P pixelData) = w * h * comps ->
+  1 <= w <= 65535 -> 1 <= h <= 65535 -> comps = 1 \/ comps = 3 -> 2 <= P <= 16 -> 0 <= near <= 255 ->
+  w * h * comps * Z.quot (P + 7) 8 <= zlen pixelData ->
   exists stream, jlsn_encode w h comps P near pixelData = Ok stream.
 Proof. intros. apply encode_total; assumption. Qed.
 Print Assumptions C07_encode_total.
